@@ -23,7 +23,7 @@ META = {
     "bounds": {
         "quick": "N in {16,24,33,64}; 4 schedulers; windows kaiser60/kaiser200/hann/np.kaiser/scipy kaiser/custom callable/custom callable with interior zeros and negative taps; orders -1..2; backends numba,numpy (+cuda-sim on a reduced lattice); olap default/0/0.5; (Jdes,Kdes) in {(5,2),(20,10)}; bmin {1,2}; Lmin {1,4}; auto+cross; records id1/id2 + seeded",
         "thorough": "adds N in {100,257}, records id3/id4",
-        "large": "one N=4096 plan with > 2000 bins per backend and mode (every bin checked)",
+        "large": "one N=4096 plan with > 1600 bins and one N=20000 analysis with the library's default parameters per backend and mode (every bin checked)",
     },
     "assumptions": ["reference window for Kaiser: DFT-even I0 definition with beta = alpha(psll)*pi, alpha from the published polynomial",
                     "tolerances: derived rounding bound of the recurrence (see C01)"],
@@ -53,6 +53,11 @@ def shards(tier, seed):
             out.append({"N": 4096, "sched": "ltf", "win": "hann", "backend": backend, "seed": seed, "tier": tier,
                         "case": {"N": 4096, "sched": "ltf", "win": "hann", "backend": backend, "order": 0, "olap": 0.0, "Jdes": 6000,
                                  "Kdes": 1, "bmin": 1.0, "Lmin": 1, "mode": mode, "rx": "id1", "ry": "id3", "seed": seed, "light": True}})
+    for backend in ("numba", "numpy"):
+        for mode in ("auto", "cross"):
+            out.append({"N": 20000, "sched": "vectorized_ltf", "win": "kaiser200", "backend": backend, "seed": seed, "tier": tier,
+                        "case": {"N": 20000, "sched": "vectorized_ltf", "win": "kaiser200", "backend": backend, "order": 0, "olap": "default",
+                                 "Jdes": 500, "Kdes": 100, "bmin": 1.0, "Lmin": 1, "mode": mode, "rx": "id1", "ry": "id3", "seed": seed, "light": True}})
     out.sort(key=lambda s: -s["N"] * (30 if s["backend"] == "cuda" else 1))
     return pairhist.shards_for(PROPERTY) + out
 
